@@ -8,6 +8,7 @@ use crate::net::{self, Net, NetCfg, NetWorld, SimBuf, SimConn, CLIENT, SERVER};
 use crate::obs;
 use crate::refs::frames;
 use crate::refs::qpack;
+use crate::refs::varint;
 use crate::runner::{Check, Meta, RunCtx, RunOut, Violation};
 use serde_json::json;
 use std::cell::RefCell;
@@ -143,6 +144,7 @@ impl Check for C09 {
             cid
         };
         let goaway_pos = draw_usize(k + 1);
+        let push_frames = if draw(3) == 2 { 1 + draw(2) } else { 0 };
         let own_shutdown_plan: (bool, u32, usize) = if draw(3) == 2 { (true, draw(60), draw_usize(4)) } else { (false, 0, 0) };
         let log: Rc<RefCell<Vec<Ev>>> = Default::default();
         let release = Rc::new(Gate::default());
@@ -158,6 +160,16 @@ impl Check for C09 {
                     if pos == goaway_pos {
                         for _ in 0..draw(6) {
                             exec::yield_now().await;
+                        }
+                        // one run in three: frames a server merely ignores (MAX_PUSH_ID, CANCEL_PUSH) travel ahead of
+                        // the GOAWAY, in a write of their own or glued to it
+                        if push_frames > 0 {
+                            let f = if push_frames == 1 { frames::frame(frames::MAX_PUSH_ID, &varint::encode(7)) } else { frames::frame(frames::CANCEL_PUSH, &varint::encode(0)) };
+                            net.lock().unwrap().raw_write(cid, CLIENT, &f);
+                            obs::count("probe.ignored_control_frame_ahead_of_goaway");
+                            for _ in 0..draw(6) {
+                                exec::yield_now().await;
+                            }
                         }
                         net.lock().unwrap().raw_write(cid, CLIENT, &frames::goaway(0));
                         obs::ev("peer.goaway", 0, 0);
